@@ -515,3 +515,129 @@ def h_validate_genuine(mdmf: bool, shnum: int, segnum: int, other: int, gb0: int
     if bht.needed_hashes(segnum, include_leaf=True) or sht.needed_hashes(shnum, include_leaf=True):
         return "validated share leaves hashes still needed"
     return True
+
+
+# ---- 5. Retrieve reads through the proxies whose prefix the servermap update validated -------------------------
+
+R_setup = hlib.strip_logs(Retrieve._setup_download)
+R_decode = hlib.strip_logs(Retrieve._decode_blocks)
+
+
+class _FreshProxy(object):
+    """stands for a newly built MDMFSlotReadProxy: it would parse whatever header the server returns NOW"""
+    made = []
+
+    def __init__(self, storage_server, storage_index, shnum, data, *a, **kw):
+        self.shnum = shnum
+        self.fresh = True
+        _FreshProxy.made.append(self)
+
+
+def h_setup_download(k: int, a0: bool, a1: bool, a2: bool, b0: bool, b1: bool, b2: bool,
+                     e0: bool, e1: bool, e2: bool, f0: bool, f1: bool, f2: bool, other_version: bool) -> bool:
+    """
+    pre: 1 <= k <= 3
+    post: _ == True
+    """
+    k = _real(k, 1, 4)
+    N = 3
+    SI = b"storage-index"
+    verinfo = (5, b"R" * 32, b"IV-of-the-signed-prefix", 36, 100, k, N, b"signed-prefix", (("signature", 10),))
+    old = (4, b"O" * 32, b"old-IV", 36, 100, k, N, b"old-prefix", (("signature", 10),))
+    servermap = ServerMap()
+    srvA, srvB = _Server("A"), _Server("B")
+    HOLD = {srvA: [a0, a1, a2], srvB: [b0, b1, b2]}
+    EVERY = {srvA: [e0, e1, e2], srvB: [f0, f1, f2]}
+    validated = {}
+    for srv in (srvA, srvB):
+        for sh in range(N):
+            if HOLD[srv][sh]:
+                servermap.add_new_share(srv, sh, verinfo, 1.0)
+                # invariant of ServermapUpdater._got_results: every share it records has its proxy (the one whose prefix
+                # and signature were checked) cached under (verinfo, serverid, storage_index, shnum)
+                px = NS(shnum=sh, validated_for=(srv, sh), _data_is_everything=EVERY[srv][sh], fresh=False)
+                servermap.proxies[(verinfo, srv.get_serverid(), SI, sh)] = px
+                validated[(srv, sh)] = px
+    if other_version:
+        srvC = _Server("C")
+        servermap.add_new_share(srvC, 0, old, 1.0)
+        servermap.proxies[(old, "C", SI, 0)] = NS(shnum=0, validated_for=(srvC, 0), _data_is_everything=True, fresh=False)
+    _FreshProxy.made = []
+
+    class NotEnough(Exception):
+        pass
+
+    def raise_not_enough():
+        raise NotEnough()
+    rt = NS(_status=NS(set_status=lambda s: None), verinfo=verinfo, servermap=servermap, _storage_index=SI, readers={},
+            _total_shares=N, _num_segments=2, _raise_notenoughshareserror=raise_not_enough)
+    saved = rt_mod.MDMFSlotReadProxy
+    rt_mod.MDMFSlotReadProxy = _FreshProxy
+    held = set(sh for sh in range(N) if HOLD[srvA][sh] or HOLD[srvB][sh])
+    assume(len(held) >= 1)      # a Retrieve is only created for a version that the servermap lists
+    try:
+        try:
+            R_setup(rt)
+        finally:
+            rt_mod.MDMFSlotReadProxy = saved
+    except NotEnough:
+        if len(held) >= k:
+            return "NotEnoughShares although k distinct shares of the version are known"
+        return True
+    if len(held) < k:
+        return "download set up with fewer than k shares"
+    if _FreshProxy.made:
+        return "a fresh, unvalidated share proxy was built although the validated one is cached (its header/IV is never compared with the verinfo)"
+    if set(rt.readers.keys()) != held:
+        return "readers are not exactly the share numbers of this version"
+    for sh in held:
+        r = rt.readers[sh]
+        if getattr(r, "fresh", True) or r.validated_for[1] != sh or not HOLD[r.validated_for[0]][sh]:
+            return "reader for a share is not a proxy validated for that share"
+        if r.server is not r.validated_for[0]:
+            return "reader bound to a server other than the one its header was validated from"
+        if set(rt.remaining_sharemap[sh]) != set(s for s in (srvA, srvB) if HOLD[s][sh]):
+            return "remaining_sharemap wrong"
+    if sorted(rt._block_hash_trees.keys()) != list(range(N)) or any(t[0] is not None for t in rt._block_hash_trees.values()):
+        return "block hash trees not fresh"
+    if rt.share_hash_tree[0] != verinfo[1] or any(x is not None for x in rt.share_hash_tree[1:]):
+        return "share hash tree not seeded with exactly the signed root hash"
+    return True
+
+
+def h_decode_salt(nshares: int, k: int, tail: bool) -> bool:
+    """
+    pre: 1 <= k <= nshares <= 3
+    post: _ == True
+    """
+    k = _real(k, 1, 4)
+    nshares = _real(nshares, k, 4)
+    salts = [CID(i, 16) for i in range(nshares)]
+    blocks = [CID(i, 20) for i in range(nshares)]
+    results = [{sh: (blocks[sh], salts[sh])} for sh in range(nshares)]
+    seen = {}
+
+    class Dec(object):
+        def __init__(self, name):
+            self.name = name
+
+        def decode(self, shares, shareids):
+            seen["call"] = (self.name, list(shares), list(shareids))
+            return defer.succeed([b"abcd", b"efgh"])
+    rt = NS(_set_current_status=lambda s: None, _required_shares=k, _num_segments=2, _tail_decoder=Dec("tail"), _segment_decoder=Dec("seg"),
+            _data_length=100, _tail_data_size=5, _segment_size=6, _status=NS(accumulate_decode_time=lambda t: None))
+    (kind, res) = _result(R_decode(rt, results, 1 if tail else 0))
+    if kind != "ok":
+        return "decode failed: %r" % (res.value,)
+    (segment, salt) = res
+    if not any(salt is s for s in salts):
+        return "salt handed to decryption is not the salt of a validated share"
+    (name, shares, shareids) = seen["call"]
+    if name != ("tail" if tail else "seg") or len(shares) != k or len(shareids) != k:
+        return "wrong decoder / not exactly k shares"
+    for i in range(k):
+        if shares[i] is not blocks[shareids[i]]:
+            return "block paired with the wrong share id"
+    if segment != (b"abcdefgh"[:5] if tail else b"abcdefgh"[:6]):
+        return "segment not trimmed to its size"
+    return True
